@@ -45,6 +45,10 @@ const INCLUDE_RECURSION_COST: usize = 10;
 #[cfg(feature = "macros")]
 const MACRO_RECURSION_COST: usize = 4;
 
+// the cost of a single block call against the stack limit.
+#[cfg(feature = "multi_template")]
+const BLOCK_RECURSION_COST: usize = 4;
+
 struct Executor<'env>(std::marker::PhantomData<&'env Environment<'env>>);
 
 #[cfg(feature = "multi_template")]
@@ -1063,6 +1067,7 @@ impl<'env> Executor<'env> {
             }
             let instructions = block_stack.instructions();
             let auto_escape = state.auto_escape;
+            let nested = state.current_block.is_some();
             state.with_execution_state(
                 instructions,
                 auto_escape,
@@ -1070,7 +1075,16 @@ impl<'env> Executor<'env> {
                 BlockState::Keep,
                 |state| {
                     ok!(state.ctx.push_frame(Frame::default()));
-                    Self::eval_state(state, out)
+                    // a block can call itself via `self.name()`: block calls
+                    // made from within a block are as expensive as macro calls.
+                    if nested {
+                        ok!(state.ctx.incr_depth(BLOCK_RECURSION_COST));
+                    }
+                    let rv = Self::eval_state(state, out);
+                    if nested {
+                        state.ctx.decr_depth(BLOCK_RECURSION_COST);
+                    }
+                    rv
                 },
             )
         } else {
